@@ -97,7 +97,7 @@ def m_utry_recv(I, c, args, fr):
     ch = deref(args[0]).ch
     if ch.queue:
         return ok(ch.queue.pop(0))
-    return err(Adt('TryRecvError', 'Disconnected' if ch.senders <= 0 else 'Empty', 0, []))
+    return err(Adt('TryRecvError', 'Disconnected' if ch.senders <= 0 else 'Empty', 1 if ch.senders <= 0 else 0, []))
 
 # bounded channel (only what a plausible refactoring would use): capacity n, try_send fails when full
 class BSender(USender):
@@ -164,9 +164,32 @@ def m_oneshot_channel(I, c, args, fr):
     inner = OneInner()
     return Tup([OSender(inner), OReceiver(inner)])
 
+class BSendFut(PyFuture):
+    """bounded Sender::send: completes when there is room (or the receiver is gone)"""
+    def __init__(self, s, v): self.s = s; self.v = v; self.done = False
+    def poll(self, I):
+        ch = self.s.ch
+        if ch.rx_closed:
+            self.done = True
+            return err(Adt('SendError', None, 0, [self.v]))
+        if len(ch.queue) >= getattr(ch, 'capacity', 1 << 60):
+            return PENDING
+        ch.queue.append(self.v); ch.sent += 1; self.done = True
+        return ok(UNIT)
+    def on_drop(self, I):
+        if not self.done:
+            I.drop_value(self.v)
+
+class ClosedFut(PyFuture):
+    def __init__(self, pred): self.pred = pred
+    def poll(self, I):
+        return UNIT if self.pred() else PENDING
+
 @model('oneshot::Sender::send', 'Sender::send')
 def m_osend(I, c, args, fr):
     s = deref(args[0])
+    if isinstance(s, BSender):
+        return BSendFut(s, args[1])
     if isinstance(s, USender):
         return m_usend(I, c, args, fr)
     i = s.inner
@@ -271,3 +294,70 @@ def m_atomic_fetch_or(I, c, args, fr):
 def m_atomic_fetch_and(I, c, args, fr):
     a = deref(args[0]); old = a.v; a.v = old and args[1]
     return old
+
+
+# ---------------------------------------------------------------------------- further tokio surface (declared in ws/shims/tokio)
+@model('Sender::closed', 'UnboundedSender::closed', 'oneshot::Sender::closed')
+def m_sender_closed(I, c, args, fr):
+    s = deref(args[0])
+    if isinstance(s, USender):
+        return ClosedFut(lambda: s.ch.rx_closed)
+    return ClosedFut(lambda: s.inner.rx_dropped)
+
+@model('Sender::capacity')
+def m_sender_capacity(I, c, args, fr):
+    ch = deref(args[0]).ch
+    return max(0, ch.capacity - len(ch.queue))
+
+@model('Sender::max_capacity')
+def m_sender_max_capacity(I, c, args, fr):
+    return deref(args[0]).ch.capacity
+
+@model('Receiver::try_recv')
+def m_receiver_try_recv(I, c, args, fr):
+    r = deref(args[0])
+    if isinstance(r, UReceiver):
+        return m_utry_recv(I, c, args, fr)
+    i = r.inner
+    if i.has:
+        i.has = False; i.taken = True
+        v = i.value; i.value = None
+        return ok(v)
+    return err(Adt('oneshot::error::TryRecvError', 'Closed' if (i.tx_dropped or i.taken) else 'Empty', 1 if (i.tx_dropped or i.taken) else 0, []))
+
+@model('Receiver::close')
+def m_receiver_close(I, c, args, fr):
+    r = deref(args[0])
+    if isinstance(r, UReceiver):
+        r.ch.rx_closed = True
+    else:
+        r.inner.rx_dropped = True
+    return UNIT
+
+@model('Receiver::is_closed', 'UnboundedReceiver::is_closed')
+def m_receiver_is_closed(I, c, args, fr):
+    return deref(args[0]).ch.rx_closed
+
+@model('Receiver::is_empty', 'UnboundedReceiver::is_empty')
+def m_receiver_is_empty(I, c, args, fr):
+    return len(deref(args[0]).ch.queue) == 0
+
+@model('Receiver::len', 'UnboundedReceiver::len')
+def m_receiver_len(I, c, args, fr):
+    return len(deref(args[0]).ch.queue)
+
+@model('UnboundedSender::same_channel', 'Sender::same_channel')
+def m_same_channel(I, c, args, fr):
+    return deref(args[0]).ch is deref(args[1]).ch
+
+class YieldFut(PyFuture):
+    def __init__(self): self.polled = False
+    def poll(self, I):
+        if self.polled:
+            return UNIT
+        self.polled = True
+        return PENDING
+
+@model('task::yield_now', 'yield_now')
+def m_yield_now(I, c, args, fr):
+    return YieldFut()
